@@ -167,6 +167,13 @@ def _parse_np_frame(R, frame, sig, where):
     lo, hi, step = sl.args[1], sl.args[2], sl.args[3]
     if step != S.NONE:
         raise AnalysisError("%s: strided frame slice" % R)
+    # x[a:][lo:hi] is x[a + lo : a + hi] (a >= 0): fold a dropped prefix into the frame bounds
+    while cc.is_call(src, "getitem") and cc.is_call(src.args[2], "slice") and src.args[2].args[2] == S.NONE and src.args[2].args[3] == S.NONE \
+            and src.args[2].args[1] != S.NONE and find_sub(src.args[1], lambda x: cc.is_call(x, "np.pad")):
+        a = src.args[2].args[1]
+        lo = S.add(a, lo if lo != S.NONE else S.ZERO)
+        hi = S.add(a, hi)
+        src = src.args[1]
     pads = find_sub(src, lambda x: cc.is_call(x, "np.pad"))
     out = {"frame_lo": lo if lo != S.NONE else S.ZERO, "frame_hi": hi, "src": src}
     if not pads:
